@@ -194,7 +194,7 @@ def replay_stream(events):
     return pres, orphan
 
 
-def check_stream(rec, prefix, G, M, ctx='', unclosed_known=None):
+def check_stream(rec, prefix, G, M, ctx='', unclosed_known=None, closure=True):
     """C05 on graph G (removal mode) with presence model M.
     unclosed_known(key, run) -> True when the listed finding 'two_instant_run_from_two_points'
     applies to that run (a function of the history, never of the observed stream)."""
@@ -235,7 +235,7 @@ def check_stream(rec, prefix, G, M, ctx='', unclosed_known=None):
             bad = (k, t)
     res &= rec.check(prefix + '.minus_sound', bad is None,
                      lambda: "%s '-' event %r but runs of the pair are %r; stream %r" % (ctx, bad, M.runs(bad[0]), S))
-    for k in M.orient:
+    for k in (M.orient if closure else ()):
         kn_runs = []
         for r in M.runs(k):
             if r[1] > r[0]:
